@@ -57,6 +57,8 @@ def rand_case(rng, kinds=("hash", "probe", "counter"), maxN=14, memo="False"):
         c["T"] = rng.randint(1, 7)
     if rng.random() < 0.25:
         c["layout"] = rng.choice(["F", "rev", "str"])
+    from .c03 import decorate
+    decorate(rng, c)
     return c
 
 
@@ -67,6 +69,17 @@ def gen(ctx):
         for rule in ("hash:3:2:1:0", "probe:4:3:0:0", "counter:3:0"):
             yield dict(kind="ev1", hist=[[(i * i + 1) % 3 for i in range(N)]], dtype="int32", scale=1, r=r,
                        rule=rule, T=4, memo="False")
+    # arithmetic on the cell index as handed to the rule (exact on Python ints; a fixed-width NumPy integer would wrap)
+    for N in ([70, 96] if ctx.tier == "quick" else [64, 65, 70, 96, 130]):
+        for dyn in (0, 1):
+            c = dict(kind="ev1", hist=[[rng.randrange(3) for _ in range(N)]], dtype=rng.choice(["int32", "int64"]), scale=1, r=rng.choice([1, 2]),
+                     rule="shiftc:3:0", memo="False")       # depends on c: not memoizable
+            if dyn:
+                c["pred"] = "steps:2"
+                c["fuel"] = 8
+            else:
+                c["T"] = 3
+            yield c
     # long runs with a callable timesteps: growth thresholds of any internal buffer (32, 64, 128, 256 states)
     for K in ([33, 70, 130] if ctx.tier == "quick" else [31, 32, 33, 63, 64, 65, 70, 127, 128, 129, 130, 257]):
         for H in (1, 3):
